@@ -72,8 +72,6 @@ def showResult : Result → String
   | .raised .assertion => "raise:assertion"
   | .raised .noOriginal => "raise:noOriginal"
   | .raised .outOfScope => "raise:outOfScope"
-  | .raised .crash => "raise:crash"
-  | .raised .fileNotFound => "raise:fileNotFound"
 
 def showObj : Option Obj → String
   | none => "-"
